@@ -99,19 +99,54 @@ Theorem C03_canon_alpha : forall t,
 Proof. exact canon_alpha. Qed.
 Print Assumptions C03_canon_alpha.
 
-(* Metamorphic clauses, on the model.  Renaming the program's variables by an injective map
-   changes nothing (partial: alpha-renaming that gives different names to binders that had the
-   same name is not covered). *)
-Theorem C03_infer_alpha_partial : forall f, (forall x y, f x = f y -> x = y) ->
-  forall e fuel G n, infer fuel (ren_env f G) (ren_expr f e) n = infer fuel G e n.
-Proof. exact infer_alpha_partial. Qed.
-Print Assumptions C03_infer_alpha_partial.
+(* Metamorphic clauses, on the model.  Alpha-equivalent programs ([aeq]: equal up to the names of
+   bound variables, binders that had the same name may get different ones and vice versa) get the
+   same substitution, type and type-variable numbering. *)
+Theorem C03_infer_alpha : forall e e' fuel, aeq [] e e' -> infer_top fuel e = infer_top fuel e'.
+Proof. exact infer_alpha. Qed.
+Print Assumptions C03_infer_alpha.
 
-(* An unused literal binding changes nothing (partial: for an arbitrary typable unused definition
-   the result is the same only up to renaming of type variables; [infer_unused_let_full_stmt]). *)
-Theorem C03_infer_unused_let_partial : forall x e fuel G n,
-  occ x e = false ->
-  infer fuel G (ELet x EInt e) n = infer fuel G e n /\
-  infer fuel G (ELet x EStr e) n = infer fuel G e n.
-Proof. exact infer_unused_let_partial. Qed.
-Print Assumptions C03_infer_unused_let_partial.
+Theorem C03_infer_alpha_env : forall m e e', aeq m e e' ->
+  forall M fuel n, names M = m -> infer fuel (envL M) e n = infer fuel (envR M) e' n.
+Proof. exact infer_alpha_gen. Qed.
+Print Assumptions C03_infer_alpha_env.
+
+(* An unused binding whose definition is typable (any expression, not only a literal) does not
+   change acceptance, and the type is the type of the body with every type variable shifted by the
+   number of variables the definition consumed - an injective renaming (C03_shift_inv). *)
+Theorem C03_infer_unused_let : forall x e1 e2 fuel s1 t1 n1,
+  occ x e2 = false -> infer fuel [] e1 0 = Ok (s1, t1, n1) ->
+  infer fuel [] (ELet x e1 e2) 0 =
+  match infer fuel [] e2 0 with
+  | Ok (s2, t2, n2) => Ok (s1 ++ shift_sub n1 s2, shift n1 t2, n2 + n1)
+  | Fail => Fail
+  | OutOfFuel => OutOfFuel
+  end.
+Proof. exact infer_unused_let. Qed.
+Print Assumptions C03_infer_unused_let.
+
+Theorem C03_infer_top_unused_let : forall x e1 e2 fuel t1,
+  occ x e2 = false -> infer_top fuel e1 = Ok t1 ->
+  exists k, infer_top fuel (ELet x e1 e2) =
+            match infer_top fuel e2 with Ok t2 => Ok (shift k t2) | Fail => Fail | OutOfFuel => OutOfFuel end.
+Proof. exact infer_top_unused_let. Qed.
+Print Assumptions C03_infer_top_unused_let.
+
+Theorem C03_shift_inv : forall k t, tsubst (fun x => TVar (x - k)) (shift k t) = t.
+Proof. exact shift_inv. Qed.
+Print Assumptions C03_shift_inv.
+
+(* Inference commutes with shifting all type variables and the counter. *)
+Theorem C03_infer_shift : forall k e fuel G n,
+  infer fuel (shift_env k G) e (n + k) = shift_ires k (infer fuel G e n).
+Proof. exact infer_shift. Qed.
+Print Assumptions C03_infer_shift.
+
+(* The side condition of row unification: two rows that end in the same variable and need
+   different fields from it do not unify (this is what keeps the row rewriting finite; full
+   termination with rows, [unify_terminates_full_stmt], is not proved). *)
+Theorem C03_unify_same_tail_fails : forall fuel n l l' a a' b rest,
+  l <> l' ->
+  unify (S fuel) n ((RCons l a (TVar b), RCons l' a' (TVar b)) :: rest) = Fail.
+Proof. exact unify_same_tail_fails. Qed.
+Print Assumptions C03_unify_same_tail_fails.
